@@ -769,3 +769,51 @@ Proof.
       destruct (binary_types_valid_tag b lname lty (te_field entry) tag_name) as [es Hes].
       rewrite Hes. cbn [bind]. destruct es; eexists; split; try reflexivity; exact Hlk_ok.
 Qed.
+
+(* the types make_filter_expr gives to variables are well formed *)
+Lemma with_nullability_wf : forall t nl, wf_ty t = true -> wf_ty (ty_with_nullability t nl) = true.
+Proof.
+  intros t nl W. wfd W s a Hd. rewrite with_nullability_T. apply wf_T.
+  destruct a; cbn [awith_null adepth] in *; exact Hd.
+Qed.
+
+Lemma infer_variable_type_wf : forall n lty b t,
+  wf_ty lty = true -> infer_variable_type n lty b = Ok (inr t) -> wf_ty t = true.
+Proof.
+  intros n lty b t W H. unfold infer_variable_type in H.
+  destruct b; try (apply ok_inr_inj in H; subst t; reflexivity).
+  - apply ok_inr_inj in H; subst t; exact W.
+  - apply ok_inr_inj in H; subst t; exact W.
+  - apply ok_inr_inj in H; subst t; apply with_nullability_wf; exact W.
+  - apply ok_inr_inj in H; subst t; apply with_nullability_wf; exact W.
+  - apply ok_inr_inj in H; subst t; apply with_nullability_wf; exact W.
+  - apply ok_inr_inj in H; subst t; apply with_nullability_wf; exact W.
+  - destruct (ty_as_list lty) as [i |] eqn:E; [| discriminate H].
+    apply ok_inr_inj in H; subst t. exact (proj1 (ty_as_list_wf _ _ W E)).
+  - destruct (ty_as_list lty) as [i |] eqn:E; [| discriminate H].
+    apply ok_inr_inj in H; subst t. exact (proj1 (ty_as_list_wf _ _ W E)).
+  - pose proof (ty_list_spec lty false W) as Hs. destruct (Nat.eqb (ty_depth lty) 30).
+    + rewrite Hs in H. discriminate H.
+    + destruct Hs as [t' [Ht' [W' _]]]. rewrite Ht' in H. cbn [bind] in H. apply ok_inr_inj in H; subst t. exact W'.
+  - pose proof (ty_list_spec lty false W) as Hs. destruct (Nat.eqb (ty_depth lty) 30).
+    + rewrite Hs in H. discriminate H.
+    + destruct Hs as [t' [Ht' [W' _]]]. rewrite Ht' in H. cbn [bind] in H. apply ok_inr_inj in H; subst t. exact W'.
+Qed.
+
+Lemma make_filter_expr_var_wf : forall tags path vid lname lty fd tags' op n t,
+  wf_ty lty = true ->
+  make_filter_expr tags path vid lname lty fd = Ok (tags', inr (op, Some (AVar n t))) -> wf_ty t = true.
+Proof.
+  intros tags path vid lname lty fd tags' op n t W H. unfold make_filter_expr in H.
+  destruct fd as [u | b arg].
+  - destruct (ty_nullable lty); inversion H.
+  - destruct arg as [var_name | tag_name].
+    + destruct (infer_variable_type lname lty b) as [[e | t0] | s] eqn:Hi; cbn [bind snd fst] in H; try discriminate H.
+      destruct (binary_types_valid b lname lty (AVar var_name t0) None) as [es | s]; cbn [bind] in H; [| discriminate H].
+      destruct es; inversion H; subst. eapply infer_variable_type_wf; eassumption.
+    + destruct (th_reference_tag tags tag_name path vid) as [[tg [[ | | ] | entry]] | s]; cbn [bind snd fst] in H;
+        try discriminate H.
+      destruct (binary_types_valid b lname lty (ATag (te_field entry)) (Some tag_name)) as [es | s];
+        cbn [bind] in H; [| discriminate H].
+      destruct es; inversion H.
+Qed.
